@@ -99,6 +99,20 @@ func c15Run(f failer, cfg world.Cfg, p c15Params, next func(i int, mr *hist.MRun
 		if ro.W.InitErr == nil {
 			failf(f, "Initialize with a key that cannot read the tape reported success")
 		}
+		// the refused Initialize left the drive free: a retry and a call that reads the drive return
+		var again error
+		checkObs(f, hist.Call("Initialize again", func() { _, again = ro.W.FS.Initialize("/", os.ModePerm) }), "second Initialize after a refused one")
+		if again == nil {
+			failf(f, "the second Initialize with a key that cannot read the tape reported success")
+		}
+		checkObs(f, hist.Call("drive reader after refused Initialize", func() {
+			if _, err := ro.W.Backend.GetReader(); err == nil {
+				_ = ro.W.Backend.CloseReader()
+			}
+		}), "open the drive after a refused Initialize")
+		if after, _ := os.ReadFile(ro.W.Drive); !bytes.Equal(after, tapeBefore) {
+			failf(f, "retrying Initialize read-only with a key that cannot read the tape changed the tape")
+		}
 		live.S.Class("variant:wrong-key-open")
 		live.S.Case(cfg.String(), true, live.J.Digest(), func() interface{} {
 			return map[string]interface{}{"cfg": cfg.String(), "params": p}
